@@ -1307,4 +1307,406 @@ theorem packTop : ∀ (f : Frame), Good f → f.hasForeign = false → ∃ out, 
     obtain ⟨rest, hrest, hle⟩ := packIn n true (some ⟨h.src, h.dst, h.proto⟩) g' (by omega)
       (by simpa [Frame.hasForeign] using hfo) (fun _ => ⟨_, rfl, ⟨hfit.src, hfit.dst, hfit.proto⟩⟩)
     exact ⟨_, packF_ipv4 none h r n rest hrest hfit (by omega)⟩
+
+/-! ## relation to the total parser of C14 (`Packet.parse`, Model/PacketHdr.lean)
+
+Whenever the exception-aware parser returns, the C14 parser — which turns every would-be exception into "unparsed" — returns
+the same chain (LLC / LLDP objects and foreign layers being what C14 calls `unmodelled`).  Stated for the versions of the code
+without repair C15-4, the TCP-option bound the C14 model does not have. -/
+
+/-- the nested constructor calls agree -/
+structure Rel (next : K → Bytes → P Frame) (nextC : Kind → Bytes → Pkt) : Prop where
+  same : ∀ k kc b g, k.toKind = some kc → next k b = .ok g → g.toPkt = nextC kc b
+  llc : ∀ b g, next .llc b = .ok g → g.toPkt = .unmodelled "llc" b
+  lldp : ∀ b g, next .lldp b = .ok g → g.toPkt = .unmodelled "lldp" b
+
+theorem parseNext_ref (next : K → Bytes → P Frame) (nextC : Kind → Bytes → Pkt) (hr : Rel next nextC) (t : Nat) (rest : Bytes)
+    (allow : Bool) (g : Frame) (h : parseNext next t rest allow = .ok g) : g.toPkt = Packet.parseNext nextC t rest allow := by
+  unfold parseNext at h
+  unfold Packet.parseNext
+  by_cases c1 : t = 0x8100
+  · rw [if_pos c1] at h ⊢; exact hr.same _ _ _ _ rfl h
+  rw [if_neg c1] at h ⊢
+  by_cases c2 : t = 0x0806 ∨ t = 0x8035
+  · rw [if_pos c2] at h ⊢; exact hr.same _ _ _ _ rfl h
+  rw [if_neg c2] at h ⊢
+  by_cases c3 : t = 0x0800
+  · rw [if_pos c3] at h ⊢; exact hr.same _ _ _ _ rfl h
+  rw [if_neg c3] at h ⊢
+  by_cases c4 : t = 0x86dd
+  · rw [if_pos c4] at h ⊢; simp [pure, Except.pure] at h; subst h; rfl
+  rw [if_neg c4] at h ⊢
+  by_cases c5 : t = 0x88cc
+  · rw [if_pos c5] at h ⊢; exact hr.lldp _ _ h
+  rw [if_neg c5] at h ⊢
+  by_cases c6 : t = 0x888e
+  · rw [if_pos c6] at h ⊢; simp [pure, Except.pure] at h; subst h; rfl
+  rw [if_neg c6] at h ⊢
+  by_cases c7 : t = 0x8847 ∨ t = 0x8848
+  · rw [if_pos c7] at h ⊢; simp [pure, Except.pure] at h; subst h; rfl
+  rw [if_neg c7] at h ⊢
+  by_cases c8 : t < 1536 ∧ allow = true
+  · rw [if_pos c8] at h ⊢; exact hr.llc _ _ h
+  rw [if_neg c8] at h ⊢
+  simp [pure, Except.pure] at h; subst h; rfl
+
+theorem ethParse_ref (next : K → Bytes → P Frame) (nextC : Kind → Bytes → Pkt) (hr : Rel next nextC) (raw : Bytes) (f : Frame)
+    (h : ethParse next raw = .ok f) : f.toPkt = Packet.ethParse nextC raw := by
+  unfold ethParse at h
+  unfold Packet.ethParse
+  by_cases c : raw.length < 14
+  · rw [if_pos c] at h ⊢; simp [pure, Except.pure] at h; subst h; rfl
+  rw [if_neg c] at h ⊢
+  obtain ⟨dst, src, t, hu, hu', _⟩ := eth_shape (raw.take 14) (take_len raw 14 (by omega))
+  simp only [hu] at h
+  simp only [hu']
+  cases hn : parseNext next t (raw.drop 14) with
+  | error e => simp [hn] at h
+  | ok n =>
+    simp [hn, pure, Except.pure] at h
+    subst h
+    simp [Frame.toPkt, parseNext_ref next nextC hr _ _ _ _ hn]
+
+theorem vlanParse_ref (next : K → Bytes → P Frame) (nextC : Kind → Bytes → Pkt) (hr : Rel next nextC) (raw : Bytes) (f : Frame)
+    (h : vlanParse next raw = .ok f) : f.toPkt = Packet.vlanParse nextC raw := by
+  unfold vlanParse at h
+  unfold Packet.vlanParse
+  by_cases c : raw.length < 4
+  · rw [if_pos c] at h ⊢; simp [pure, Except.pure] at h; subst h; rfl
+  rw [if_neg c] at h ⊢
+  obtain ⟨x, y, hu, hu', _⟩ := nums2_shape vlanL 2 2 rfl (raw.take 4) (take_len raw 4 (by omega))
+  simp only [hu] at h
+  simp only [hu']
+  cases hn : parseNext next y (raw.drop 4) with
+  | error e => simp [hn] at h
+  | ok n =>
+    simp [hn, pure, Except.pure] at h
+    subst h
+    simp [Frame.toPkt, parseNext_ref next nextC hr _ _ _ _ hn]
+
+theorem arpParse_ref (raw : Bytes) (f : Frame) (h : arpParse raw = .ok f) : f.toPkt = Packet.arpParse raw := by
+  unfold arpParse at h
+  unfold Packet.arpParse
+  by_cases c : raw.length < 28
+  · rw [if_pos c] at h ⊢; simp [pure, Except.pure] at h; subst h; rfl
+  rw [if_neg c] at h ⊢
+  obtain ⟨a1, a2, a3, a4, a5, a6, a7, a8, a9, hu, hu', _⟩ := arp_shape (raw.take 28) (take_len raw 28 (by omega))
+  simp only [hu] at h
+  simp only [hu']
+  repeat' split at h
+  all_goals (simp [pure, Except.pure] at h; subst h; simp_all [Frame.toPkt])
+
+theorem echoParse_ref (raw : Bytes) (f : Frame) (h : echoParse raw = .ok f) : f.toPkt = Packet.echoParse raw := by
+  unfold echoParse at h
+  unfold Packet.echoParse
+  by_cases c : raw.length < 4
+  · rw [if_pos c] at h ⊢; simp [pure, Except.pure] at h; subst h; rfl
+  rw [if_neg c] at h ⊢
+  obtain ⟨x, y, hu, hu', _⟩ := nums2_shape echoL 2 2 rfl (raw.take 4) (take_len raw 4 (by omega))
+  simp only [hu] at h
+  simp only [hu']
+  simp [pure, Except.pure] at h; subst h; rfl
+
+theorem udpParse_ref (raw : Bytes) (f : Frame) (h : udpParse raw = .ok f) : f.toPkt = Packet.udpParse raw := by
+  unfold udpParse at h
+  unfold Packet.udpParse
+  dsimp only at h ⊢
+  by_cases c : raw.length < 8
+  · rw [if_pos c] at h ⊢; simp [pure, Except.pure] at h; subst h; rfl
+  rw [if_neg c] at h ⊢
+  obtain ⟨sp, dp, l, cs, hu, hu', _⟩ := udp_shape (raw.take 8) (take_len raw 8 (by omega))
+  simp only [hu] at h
+  simp only [hu']
+  by_cases c1 : l < 8
+  · rw [if_pos c1] at h ⊢; simp [pure, Except.pure] at h; subst h; rfl
+  rw [if_neg c1] at h ⊢
+  by_cases c2 : dp = 67 ∨ dp = 68
+  · rw [if_pos c2] at h ⊢; simp [pure, Except.pure] at h; subst h; rfl
+  rw [if_neg c2] at h ⊢
+  by_cases c3 : dp = 53 ∨ sp = 53
+  · rw [if_pos c3] at h ⊢; simp [pure, Except.pure] at h; subst h; rfl
+  rw [if_neg c3] at h ⊢
+  by_cases c4 : dp = 5353 ∨ sp = 5353
+  · rw [if_pos c4] at h ⊢; simp [pure, Except.pure] at h; subst h; rfl
+  rw [if_neg c4] at h ⊢
+  by_cases c5 : dp = 520 ∨ sp = 520
+  · rw [if_pos c5] at h ⊢; simp [pure, Except.pure] at h; subst h; rfl
+  rw [if_neg c5] at h ⊢
+  by_cases c6 : dp = 4789 ∨ sp = 4789
+  · rw [if_pos c6] at h ⊢; simp [pure, Except.pure] at h; subst h; rfl
+  rw [if_neg c6] at h ⊢
+  by_cases c7 : raw.length < l
+  · rw [if_pos c7] at h ⊢; simp [pure, Except.pure] at h; subst h; rfl
+  · rw [if_neg c7] at h ⊢; simp [pure, Except.pure] at h; subst h; rfl
+
+theorem quoteDispatch_ref (next : K → Bytes → P Frame) (nextC : Kind → Bytes → Pkt) (hr : Rel next nextC) (raw : Bytes) (g : Frame)
+    (h : quoteDispatch next raw = .ok g) : g.toPkt = Packet.quoteDispatch nextC raw := by
+  unfold quoteDispatch at h
+  unfold Packet.quoteDispatch
+  by_cases c : raw.length ≥ 28
+  · rw [if_pos c] at h ⊢; exact hr.same _ _ _ _ rfl h
+  · rw [if_neg c] at h ⊢; simp [pure, Except.pure] at h; subst h; rfl
+
+theorem unreachParse_ref (next : K → Bytes → P Frame) (nextC : Kind → Bytes → Pkt) (hr : Rel next nextC) (raw : Bytes) (f : Frame)
+    (h : unreachParse next raw = .ok f) : f.toPkt = Packet.unreachParse nextC raw := by
+  unfold unreachParse at h
+  unfold Packet.unreachParse
+  by_cases c : raw.length < 4
+  · rw [if_pos c] at h ⊢; simp [pure, Except.pure] at h; subst h; rfl
+  rw [if_neg c] at h ⊢
+  obtain ⟨x, y, hu, hu', _⟩ := nums2_shape unreachL 2 2 rfl (raw.take 4) (take_len raw 4 (by omega))
+  simp only [hu] at h
+  simp only [hu']
+  cases hn : quoteDispatch next raw with
+  | error e => simp [hn] at h
+  | ok n =>
+    simp [hn, pure, Except.pure] at h
+    subst h
+    simp [Frame.toPkt, quoteDispatch_ref next nextC hr _ _ hn]
+
+theorem timeExParse_ref (next : K → Bytes → P Frame) (nextC : Kind → Bytes → Pkt) (hr : Rel next nextC) (raw : Bytes) (f : Frame)
+    (h : timeExParse next raw = .ok f) : f.toPkt = Packet.timeExParse nextC raw := by
+  unfold timeExParse at h
+  unfold Packet.timeExParse
+  by_cases c : raw.length < 4
+  · rw [if_pos c] at h ⊢; simp [pure, Except.pure] at h; subst h; rfl
+  rw [if_neg c] at h ⊢
+  obtain ⟨x, hu, hu', _⟩ := num1_shape 4 (raw.take 4) (take_len raw 4 (by omega))
+  have hu1 : unpackE timeExL (raw.take 4) = .ok [.num x] := hu
+  have hu2 : unpack timeExL (raw.take 4) = some [.num x] := hu'
+  simp only [hu1] at h
+  simp only [hu2]
+  cases hn : quoteDispatch next raw with
+  | error e => simp [hn] at h
+  | ok n =>
+    simp [hn, pure, Except.pure] at h
+    subst h
+    simp [Frame.toPkt, quoteDispatch_ref next nextC hr _ _ hn]
+
+theorem icmpParse_ref (next : K → Bytes → P Frame) (nextC : Kind → Bytes → Pkt) (hr : Rel next nextC) (raw : Bytes) (f : Frame)
+    (h : icmpParse next raw = .ok f) : f.toPkt = Packet.icmpParse nextC raw := by
+  unfold icmpParse at h
+  unfold Packet.icmpParse Packet.icmpDispatch
+  by_cases c : raw.length < 4
+  · rw [if_pos c] at h ⊢; simp [pure, Except.pure] at h; subst h; rfl
+  rw [if_neg c] at h ⊢
+  obtain ⟨t, cd, s, hu, hu', _⟩ := icmp_shape (raw.take 4) (take_len raw 4 (by omega))
+  simp only [hu] at h
+  simp only [hu']
+  by_cases c1 : t = 8 ∨ t = 0
+  · rw [if_pos c1] at h ⊢
+    cases hn : next .echo (raw.drop 4) with
+    | error e => simp [hn] at h
+    | ok n => simp [hn, pure, Except.pure] at h; subst h; simp [Frame.toPkt, hr.same _ _ _ _ rfl hn]
+  rw [if_neg c1] at h ⊢
+  by_cases c2 : t = 3
+  · rw [if_pos c2] at h ⊢
+    cases hn : next .unreach (raw.drop 4) with
+    | error e => simp [hn] at h
+    | ok n => simp [hn, pure, Except.pure] at h; subst h; simp [Frame.toPkt, hr.same _ _ _ _ rfl hn]
+  rw [if_neg c2] at h ⊢
+  by_cases c3 : t = 11
+  · rw [if_pos c3] at h ⊢
+    cases hn : next .timeEx (raw.drop 4) with
+    | error e => simp [hn] at h
+    | ok n => simp [hn, pure, Except.pure] at h; subst h; simp [Frame.toPkt, hr.same _ _ _ _ rfl hn]
+  rw [if_neg c3] at h ⊢
+  simp [pure, Except.pure] at h; subst h; rfl
+
+theorem isUnparsed_toPkt (g : Frame) : Packet.isUnparsed g.toPkt = isUnparsed g := by
+  cases g with
+  | udp h r n => cases n <;> rfl
+  | _ => rfl
+
+theorem ipv4Dispatch_ref (next : K → Bytes → P Frame) (nextC : Kind → Bytes → Pkt) (hr : Rel next nextC) (frag proto : Nat)
+    (body : Bytes) (short : Bool) (g : Frame) (h : ipv4Dispatch next frag proto body short = .ok g) :
+    g.toPkt = Packet.ipv4Dispatch nextC frag proto body short := by
+  unfold ipv4Dispatch at h
+  unfold Packet.ipv4Dispatch
+  by_cases c0 : frag ≠ 0
+  · rw [if_pos c0] at h; simp [pure, Except.pure] at h; subst h; simp [c0, Frame.toPkt, Packet.isUnparsed]
+  rw [if_neg c0] at h
+  simp only [c0, if_false]
+  have fin : ∀ (k : K) (kc : Kind) (nx : Frame), k.toKind = some kc → next k body = .ok nx →
+      (if isUnparsed nx = true then Frame.raw body else nx).toPkt
+        = if Packet.isUnparsed (nextC kc body) = true then Pkt.raw body else nextC kc body := by
+    intro k kc nx hk hn
+    have e := hr.same _ _ _ _ hk hn
+    rw [← e, isUnparsed_toPkt]
+    by_cases hu : isUnparsed nx = true <;> simp [hu, Frame.toPkt]
+  by_cases c17 : proto = 17
+  · subst c17
+    cases hn : next .udp body with
+    | error e => simp [hn] at h
+    | ok nx => simp [hn, pure, Except.pure] at h; subst h; simpa using fin .udp .udp nx rfl hn
+  by_cases c6 : proto = 6
+  · subst c6
+    cases hn : next .tcp body with
+    | error e => simp [hn] at h
+    | ok nx => simp [hn, pure, Except.pure] at h; subst h; simpa using fin .tcp .tcp nx rfl hn
+  by_cases c1 : proto = 1
+  · subst c1
+    cases hn : next .icmp body with
+    | error e => simp [hn] at h
+    | ok nx => simp [hn, pure, Except.pure] at h; subst h; simpa using fin .icmp .icmp nx rfl hn
+  have hno : ¬ (proto = 17 ∨ proto = 6 ∨ proto = 1) := by omega
+  rw [if_neg hno] at h
+  simp only [c17, c6, c1, if_false]
+  by_cases c2 : proto = 2
+  · rw [if_pos c2] at h ⊢; simp [pure, Except.pure] at h; subst h; simp [Frame.toPkt, Packet.isUnparsed]
+  rw [if_neg c2] at h ⊢
+  by_cases c47 : proto = 47
+  · rw [if_pos c47] at h ⊢; simp [pure, Except.pure] at h; subst h; simp [Frame.toPkt, Packet.isUnparsed]
+  rw [if_neg c47] at h ⊢
+  by_cases cs : short = true
+  · rw [if_pos cs] at h ⊢; simp [pure, Except.pure] at h; subst h; simp [Frame.toPkt, Packet.isUnparsed]
+  · rw [if_neg cs] at h ⊢; simp [pure, Except.pure] at h; subst h; simp [Frame.toPkt, Packet.isUnparsed]
+
+theorem ipv4Parse_ref (next : K → Bytes → P Frame) (nextC : Kind → Bytes → Pkt) (hr : Rel next nextC) (raw : Bytes) (f : Frame)
+    (h : ipv4Parse next raw = .ok f) : f.toPkt = Packet.ipv4Parse nextC raw := by
+  unfold ipv4Parse at h
+  unfold Packet.ipv4Parse
+  dsimp only at h ⊢
+  by_cases c : raw.length < 20
+  · rw [if_pos c] at h ⊢; simp [pure, Except.pure] at h; subst h; rfl
+  rw [if_neg c] at h ⊢
+  obtain ⟨vhl, tos, iplen, id, ff, ttl, proto, csum, src, dst, hu, hu', _⟩ :=
+    ipv4_shape (raw.take 20) (take_len raw 20 (by omega))
+  simp only [hu] at h
+  simp only [hu']
+  by_cases c1 : vhl / 16 ≠ 4
+  · rw [if_pos c1] at h ⊢; simp [pure, Except.pure] at h; subst h; rfl
+  rw [if_neg c1] at h ⊢
+  by_cases c2 : vhl % 16 < 5
+  · rw [if_pos c2] at h ⊢; simp [pure, Except.pure] at h; subst h; rfl
+  rw [if_neg c2] at h ⊢
+  by_cases c3 : iplen < 20
+  · rw [if_pos c3] at h ⊢; simp [pure, Except.pure] at h; subst h; rfl
+  rw [if_neg c3] at h ⊢
+  by_cases c4 : vhl % 16 * 4 > iplen
+  · rw [if_pos c4] at h ⊢; simp [pure, Except.pure] at h; subst h; rfl
+  rw [if_neg c4] at h ⊢
+  by_cases c5 : vhl % 16 * 4 > raw.length
+  · rw [if_pos c5] at h ⊢; simp [pure, Except.pure] at h; subst h; rfl
+  rw [if_neg c5] at h ⊢
+  cases hn : ipv4Dispatch next (ff % 8192) proto (sl raw (vhl % 16 * 4) (if iplen > raw.length then raw.length else iplen))
+      (decide (raw.length < iplen)) with
+  | error e => simp [hn] at h
+  | ok n =>
+    simp [hn, pure, Except.pure] at h
+    subst h
+    simp [Frame.toPkt, ipv4Dispatch_ref next nextC hr _ _ _ _ _ hn]
+
+theorem tcpParse_ref (cfg : Cfg) (hc : cfg.tcpOptBound = false) (raw : Bytes) (f : Frame) (h : tcpParse cfg raw = .ok f) :
+    f.toPkt = Packet.tcpParse raw := by
+  unfold tcpParse at h
+  unfold Packet.tcpParse
+  dsimp only at h ⊢
+  by_cases c : raw.length < 20
+  · rw [if_pos c] at h ⊢; simp [pure, Except.pure] at h; subst h; rfl
+  rw [if_neg c] at h ⊢
+  obtain ⟨sp, dp, seq, ack, offres, flags, win, csum, urg, hu, hu', _⟩ := tcp_shape (raw.take 20) (take_len raw 20 (by omega))
+  simp only [hu] at h
+  simp only [hu']
+  by_cases c1 : offres / 16 * 4 < 20 ∨ offres / 16 * 4 > raw.length
+  · rw [if_pos c1] at h ⊢; simp [pure, Except.pure] at h; subst h; rfl
+  rw [if_neg c1] at h ⊢
+  simp only [hc, Bool.false_eq_true, if_false] at h
+  cases hr : tcpParseOpts (offres / 16 * 4) raw (offres / 16 * 4) 20 with
+  | fail => simp [hr, pure, Except.pure] at h; subst h; rfl
+  | mptcp => simp [hr, pure, Except.pure] at h; subst h; rfl
+  | ok os => simp [hr, pure, Except.pure] at h; subst h; rfl
+
+theorem llcTail_shape (next : K → Bytes → P Frame) (raw : Bytes) (d s c len : Nat) (g : Frame)
+    (h : llcTail next raw d s c len = .ok g) : g.toPkt = .unmodelled "llc" raw := by
+  unfold llcTail at h
+  dsimp only at h
+  repeat' split at h
+  all_goals first
+    | (simp [pure, Except.pure] at h; subst h; rfl)
+    | simp at h
+
+theorem llcParse_shape (next : K → Bytes → P Frame) (raw : Bytes) (g : Frame) (h : llcParse next raw = .ok g) :
+    g.toPkt = .unmodelled "llc" raw := by
+  unfold llcParse at h
+  repeat' split at h
+  all_goals first
+    | (simp [pure, Except.pure] at h; subst h; rfl)
+    | exact llcTail_shape _ _ _ _ _ _ _ h
+    | simp at h
+
+theorem lldpParse_shape (cfg : Cfg) (raw : Bytes) (g : Frame) (h : lldpParse cfg raw = .ok g) :
+    g.toPkt = .unmodelled "lldp" raw := by
+  unfold lldpParse at h
+  repeat' split at h
+  all_goals first
+    | (simp [pure, Except.pure] at h; subst h; rfl)
+    | simp at h
+
+/-- the exception-aware parser refines the total parser of C14 -/
+theorem parseD_ref (cfg : Cfg) (hc : cfg.tcpOptBound = false) : ∀ (d : Nat),
+    Rel (parseD cfg d) (Packet.parse d) := by
+  intro d
+  induction d with
+  | zero =>
+    exact ⟨fun k kc b g _ h => by simp [parseD] at h, fun b g h => by simp [parseD] at h, fun b g h => by simp [parseD] at h⟩
+  | succ d ih =>
+    refine ⟨?_, ?_, ?_⟩
+    · intro k kc b g hk h
+      cases k <;> simp [K.toKind] at hk <;> subst hk <;> simp only [parseD] at h <;> simp only [Packet.parse]
+      · exact ethParse_ref _ _ ih _ _ h
+      · exact vlanParse_ref _ _ ih _ _ h
+      · exact arpParse_ref _ _ h
+      · exact ipv4Parse_ref _ _ ih _ _ h
+      · exact udpParse_ref _ _ h
+      · exact tcpParse_ref cfg hc _ _ h
+      · exact icmpParse_ref _ _ ih _ _ h
+      · exact echoParse_ref _ _ h
+      · exact unreachParse_ref _ _ ih _ _ h
+      · exact timeExParse_ref _ _ ih _ _ h
+    · intro b g h; simp only [parseD] at h; exact llcParse_shape _ _ _ h
+    · intro b g h; simp only [parseD] at h; exact lldpParse_shape _ _ _ h
+
+/-! ## nesting is bounded only by the frame length -/
+
+/-- `n` 802.1Q tags, each announcing another tag (TCI 0x0001, inner type 0x8100) -/
+def vtags : Nat → Bytes
+  | 0 => []
+  | n+1 => [0x00, 0x01, 0x81, 0x00] ++ vtags n
+
+/-- an Ethernet header of type 0x8100 followed by `n` such tags: 14 + 4·n bytes -/
+def nestFrame (n : Nat) : Bytes := List.replicate 12 0 ++ [0x81, 0x00] ++ vtags n
+
+theorem vtags_length (n : Nat) : (vtags n).length = 4 * n := by
+  induction n with
+  | zero => rfl
+  | succ n ih => simp [vtags, ih]; omega
+
+theorem nestFrame_length (n : Nat) : (nestFrame n).length = 14 + 4 * n := by
+  simp [nestFrame, vtags_length]; omega
+
+theorem vlan_nest (cfg : Cfg) : ∀ (m n : Nat), m ≤ n → parseD cfg m .vlan (vtags n) = .error .recursion := by
+  intro m
+  induction m with
+  | zero => intro n _; rfl
+  | succ m ih =>
+    intro n hn
+    cases n with
+    | zero => omega
+    | succ n =>
+      have hlen : ¬ (vtags (n + 1)).length < 4 := by rw [vtags_length]; omega
+      have hu : unpackE vlanL ((vtags (n + 1)).take 4) = .ok [.num 1, .num 0x8100] := by
+        simp only [vtags, List.cons_append, List.nil_append, List.take_succ_cons, List.take_zero]; rfl
+      have hd : (vtags (n + 1)).drop 4 = vtags n := by simp [vtags]
+      simp only [parseD, vlanParse, if_neg hlen, hu, hd, parseNext, if_true, ih n (by omega)]
+
+theorem eth_nest (cfg : Cfg) (d : Nat) : parseD cfg d .eth (nestFrame d) = .error .recursion := by
+  cases d with
+  | zero => rfl
+  | succ m =>
+    have hlen : ¬ (nestFrame (m + 1)).length < 14 := by rw [nestFrame_length]; omega
+    have hu : unpackE ethL ((nestFrame (m + 1)).take 14) = .ok [.raw (List.replicate 6 0), .raw (List.replicate 6 0), .num 0x8100] := by
+      simp only [nestFrame, List.replicate, List.cons_append, List.nil_append, List.take_succ_cons, List.take_zero]; rfl
+    have hd : (nestFrame (m + 1)).drop 14 = vtags (m + 1) := by simp [nestFrame, List.replicate]
+    simp only [parseD, ethParse, if_neg hlen, hu, hd, parseNext, if_true, vlan_nest cfg m (m + 1) (by omega)]
 end Pox.Parse
